@@ -24,6 +24,7 @@ import (
 	"verif/props/c15"
 	"verif/props/c16"
 	"verif/props/c17"
+	"verif/props/c18"
 	"verif/props/c19"
 	"verif/props/c20"
 )
@@ -51,6 +52,7 @@ var props = map[string]prop{
 	"C15": {"exploration", c15.Run},
 	"C16": {"model_checking", c16.Run},
 	"C17": {"model_checking", c17.Run},
+	"C18": {"model_checking", c18.Run},
 	"C19": {"exploration", c19.Run},
 	"C20": {"exploration", c20.Run},
 }
